@@ -32,6 +32,7 @@
 (*   Raise                  an exception of a step propagates to the user *)
 (*   ObserveAngles          cfg.scales.scales.get_angle_radian(z, cosmo)  *)
 (*                            -> Angular/Physical/ComovingScales          *)
+(*                               ._compute_angle  (ComputeAngle)          *)
 (*   ObserveEq              cfg == twin  (Configuration.__eq__ =          *)
 (*                            BinningConfig.__eq__ and ScalesConfig.__eq__*)
 (*                            and cosmology_is_equal, short circuit)      *)
@@ -48,9 +49,18 @@
 (* zmin / zmax), the driver evaluates it.                                  *)
 (*   NONE = python None, NOTSET / NS / NSQ = yaw.options.NotSet.           *)
 (*   cosmology tokens: "omitted" (argument not passed), "none" (None),     *)
-(*   "Planck15" "WMAP9" (named astropy objects), "anon" (unnamed FLRW      *)
-(*   object), "custom" (CustomCosmology subclass instance), "s:<name>"     *)
-(*   (string), "badtype" (an int).                                         *)
+(*   "Planck15" "WMAP9" (named astropy objects), "anon" (unnamed FLAT FLRW *)
+(*   object), "open" "closed" (unnamed FLRW objects WITH spatial curvature,*)
+(*   Ok0 > 0 resp. < 0), "custom" (CustomCosmology subclass instance whose *)
+(*   two distance methods are those of a flat model), "customDA"           *)
+(*   (CustomCosmology whose angular_diameter_distance is NOT               *)
+(*   comoving_distance / (1+z)), "s:<name>" (string), "badtype" (an int).  *)
+(*   Angles: the spec names WHICH distance method of WHICH cosmology the   *)
+(*   scale limits are divided by (declarative AngleSpec, operational       *)
+(*   ComputeAngle); the driver evaluates that method of that cosmology.    *)
+(*   DistanceIdentity(c) says for which cosmologies the two measures are   *)
+(*   tied by D_A = D_C / (1+z) (spatially flat models only): only there    *)
+(*   may one measure stand in for the other.                               *)
 (*                                                                         *)
 (* Deviations (departures of the code as found from the design that        *)
 (* satisfies C15; Deviations = {} must pass, each one must fail):          *)
@@ -79,6 +89,12 @@
 (*                              inexact end points (binning.fuzz counts    *)
 (*                              the inexact generations: 0 = the edges span*)
 (*                              exactly [zmin, zmax])                      *)
+(*   "PhysicalViaComoving"      PhysicalScales._compute_angle derives the  *)
+(*                              angular diameter distance as               *)
+(*                              comoving_distance(z) / (1+z) instead of    *)
+(*                              calling cosmology.angular_diameter_distance*)
+(*                              (invisible on every domain whose           *)
+(*                              cosmologies all have DistanceIdentity)     *)
 (***************************************************************************)
 EXTENDS Integers, Sequences, FiniteSets, TLC
 
@@ -113,8 +129,13 @@ ComovingUnits == {"kpc/h", "Mpc/h"}
 KnownUnits == AngularUnits \cup PhysicalUnits \cup ComovingUnits
 KnownCloseds == {"right", "left"}
 
-FLRWObjects == {"Planck15", "WMAP9", "anon"}
-CosmoObjects == FLRWObjects \cup {"custom"}
+FlatFLRW == {"Planck15", "WMAP9", "anon"}
+CurvedFLRW == {"open", "closed"}
+FLRWObjects == FlatFLRW \cup CurvedFLRW
+CustomObjects == {"custom", "customDA"}
+CosmoObjects == FLRWObjects \cup CustomObjects
+(* cosmologies for which angular_diameter_distance(z) = comoving_distance(z) / (1+z) *)
+DistanceIdentity(c) == c \in FlatFLRW \cup {"custom"}
 KnownNames == {"s:Planck15", "s:WMAP9"}
 NameTarget(tok) == IF tok = "s:WMAP9" THEN "WMAP9" ELSE "Planck15"
 NameOf(id) == IF id = "WMAP9" THEN "s:WMAP9" ELSE "s:Planck15"
@@ -301,7 +322,10 @@ MergeVerdict(n, d) == LET m == Merge(n, d) IN
     THEN (IF "reject" \in {CosmoVerdict(m.p), ScalesVerdict(m.p)} THEN "reject" ELSE "open")
     ELSE Verdict(m.p)
 
-(* unit -> distance measure and divisor of get_angle_radian *)
+(* unit -> distance measure and divisor of get_angle_radian: the angle of a *)
+(* scale limit r is (r / div) / <measure>(z) of cosmology <cosmo>          *)
+(* (options.Unit: kpc, Mpc = transverse angular diameter distance;         *)
+(*  kpc/h, Mpc/h = transverse comoving distance)                           *)
 AngleSpec(o) ==
     LET u == o.scales.unit IN
     [measure |-> CASE u = "rad" -> "rad"
@@ -312,6 +336,14 @@ AngleSpec(o) ==
                [] u = "arcmin" -> 60 [] u = "arcsec" -> 3600 [] OTHER -> 1,
      cosmo |-> o.cosmo]
 
+(* two angle formulas give the same angles: same divisor and cosmology and *)
+(* the same distance method - or the two methods tied by DistanceIdentity  *)
+SameAngles(a, b) ==
+    /\ a.div = b.div /\ a.cosmo = b.cosmo
+    /\ \/ a.measure = b.measure
+       \/ /\ {a.measure, b.measure} = {"angular_diameter_distance", "comoving_distance/(1+z)"}
+          /\ DistanceIdentity(a.cosmo)
+
 ---------------------------------------------------------------------------
 (* (2) OPERATIONAL LAYER: the library's functions                          *)
 
@@ -320,9 +352,9 @@ ParseCosmology(tok) ==
     CASE tok = "none" -> CRes("ok", "-", DefaultCosmo)
       [] tok \in KnownNames -> CRes("ok", "-", NameTarget(tok))
       [] tok \in FLRWObjects -> CRes("ok", "-", tok)
-      [] tok = "custom" -> IF "ForwardRefIsinstance" \in Deviations
-                           THEN CRes("raises", "TypeError", "-")
-                           ELSE CRes("ok", "-", "custom")
+      [] tok \in CustomObjects -> IF "ForwardRefIsinstance" \in Deviations
+                                  THEN CRes("raises", "TypeError", "-")
+                                  ELSE CRes("ok", "-", tok)
       [] tok = "badtype" -> IF "ForwardRefIsinstance" \in Deviations
                             THEN CRes("raises", "TypeError", "-")
                             ELSE CRes("raises", "ConfigError", "-")
@@ -363,7 +395,7 @@ BinningCreate(zmin, zmax, nb, method, edges, closed, carg, fz) ==
                  THEN BRes("raises", "AttributeError", NoBinning)      \* a str has no comoving_distance
             ELSE IF nb = NONE THEN BRes("raises", "TypeError", NoBinning)
             ELSE IF nb < 1 \/ zmin >= zmax THEN BRes("raises", "ValueError", NoBinning)
-            ELSE IF method = "comoving" /\ FactoryCosmo(carg) = "custom"
+            ELSE IF method = "comoving" /\ FactoryCosmo(carg) \in CustomObjects
                     /\ "ComovingCustomFloats" \in Deviations
                  THEN BRes("raises", "UnitConversionError", NoBinning)
             ELSE IF method = "comoving" /\ zmin = 0 /\ "ComovingZeroZmin" \in Deviations
@@ -450,14 +482,32 @@ ScalesEq(a, b) ==
     THEN (IF "EqRbinNum" \in Deviations THEN "raises"
           ELSE IF a.res = b.res THEN "true" ELSE "false")
     ELSE "false"
-CosmoEq(a, b) ==
-    IF a = "custom" /\ b = "custom" THEN "true"
-    ELSE IF a = "custom" \/ b = "custom" THEN "false"
+CosmoEq(a, b) ==          \* cosmology_is_equal: "Always True for instances of CustomCosmology"
+    IF a \in CustomObjects /\ b \in CustomObjects THEN "true"
+    ELSE IF a \in CustomObjects \/ b \in CustomObjects THEN "false"
     ELSE IF a = b THEN "true" ELSE "false"
 ConfigEq(a, b) ==          \* and-chain with short circuit
     IF BinningEq(a.binning, b.binning) = "false" THEN "false"
     ELSE IF ScalesEq(a.scales, b.scales) # "true" THEN ScalesEq(a.scales, b.scales)
     ELSE CosmoEq(a.cosmo, b.cosmo)
+
+(* cosmology.py: Scales.get_angle_radian(z, cosmology) of the three classes; *)
+(* a configuration always hands its own cosmology over                     *)
+ComputeAngle(o) ==
+    LET u == o.scales.unit IN
+    IF u \in AngularUnits THEN                              \* AngularScales._compute_angle
+        [measure |-> IF u = "rad" THEN "rad" ELSE "deg",
+         div |-> CASE u = "arcmin" -> 60 [] u = "arcsec" -> 3600 [] OTHER -> 1,
+         cosmo |-> o.cosmo]
+    ELSE IF u \in PhysicalUnits THEN                        \* PhysicalScales._compute_angle
+        [measure |-> IF "PhysicalViaComoving" \in Deviations
+                     THEN "comoving_distance/(1+z)" ELSE "angular_diameter_distance",
+         div |-> IF u = "kpc" THEN 1000 ELSE 1,
+         cosmo |-> o.cosmo]
+    ELSE                                                    \* ComovingScales._compute_angle
+        [measure |-> "comoving_distance",
+         div |-> IF u = "kpc/h" THEN 1000 ELSE 1,
+         cosmo |-> o.cosmo]
 
 (* Configuration.to_dict: cosmology_to_yaml *)
 Serialisable(o) == o.cosmo \in {"Planck15", "WMAP9"}
@@ -586,7 +636,7 @@ Raise ==
 (* ---- observations on the new object (tmp.new), then it becomes cur ---- *)
 ObserveAngles ==
     /\ pc = "o_angles"
-    /\ tmp' = [tmp EXCEPT !.obs.angle = AngleSpec(tmp.new)]
+    /\ tmp' = [tmp EXCEPT !.obs.angle = ComputeAngle(tmp.new)]
     /\ pc' = "o_eq"
     /\ UNCHANGED <<cur, decl, orig, p0, mods, last>>
 
@@ -708,8 +758,10 @@ EqNeverRaises ==
 RoundTripIdentity ==
     (AtResult /\ last.out = "ok" /\ last.obs.todict = "ok") => last.obs.rt = "same"
 
+(* scale limits become angles as r / D(z): D = the unit's distance measure  *)
+(* of the configuration's cosmology (or a measure that is the same there)  *)
 AnglesUseConfiguredCosmology ==
-    (AtResult /\ last.out = "ok") => last.obs.angle = AngleSpec(cur)
+    (AtResult /\ last.out = "ok") => SameAngles(last.obs.angle, AngleSpec(cur))
 
 TypeOK ==
     /\ pc \in {"start", "c_cosmo", "c_scales", "c_binning", "c_construct", "idle", "m_scales",
@@ -759,7 +811,9 @@ CaseLine ==
       <<last.rs.st, last.rs.err, CompactScales(last.rs.v)>>,
       <<last.rb.st, last.rb.err, CompactBinning(last.rb.v), last.carg>>,
       <<last.rc.st, last.rc.err, last.rc.id>>,
-      <<last.obs.angle.measure, last.obs.angle.div, last.obs.angle.cosmo>>,
+      <<last.obs.angle.measure, last.obs.angle.div, last.obs.angle.cosmo,
+        IF last.obs.angle.cosmo = "-" THEN "-"
+        ELSE IF DistanceIdentity(last.obs.angle.cosmo) THEN "DA=DC/(1+z)" ELSE "independent">>,
       <<last.obs.eqb, last.obs.eqs, last.obs.eqc, last.obs.eq, last.obs.eqprev>>,
       <<last.obs.todict, last.obs.rt, last.obs.rterr>> >>
 
